@@ -115,3 +115,21 @@ Lemma w2_legacy_breaks_inv : ~ TaskInv w2_cfg (r_db (hstep legacy w2_cfg chainB 
 Proof. intros H. apply TaskInv_i1b in H. vm_compute in H. discriminate. Qed.
 Lemma w2_repaired_keeps_inv : i1b w2_cfg (r_db (hstep repaired w2_cfg chainB w2_mid)) = true.
 Proof. vm_compute. reflexivity. Qed.
+
+(* the pinned Task.Delete does not preserve TaskInv (full statement + refutation) *)
+Definition legacy_preserves_inv_full : Prop :=
+  forall c ch d, cfg_ok c -> TaskInv c d -> TaskInv c (r_db (hstep legacy c ch d)).
+Lemma legacy_preserves_inv_false : ~ legacy_preserves_inv_full.
+Proof.
+  intros H. apply w2_legacy_breaks_inv. apply H; [apply w2_mid_inv|apply w2_mid_inv].
+Qed.
+Lemma legacy_partitions_both :
+  partitions legacy (Task 1 1 2 3 1 0 1 4 [] true true) 1 1 = []
+  /\ partitions repaired (Task 1 1 2 3 1 0 1 4 [] true true) 1 1 = [(1,1)].
+Proof. split; [exact legacy_partitions_empty|exact (proj2 repaired_partitions_example)]. Qed.
+Lemma empty_inv_example : TaskInv w2_cfg (Db [] []).
+Proof. apply (TaskInv_by_ghost _ _ []); reflexivity. Qed.
+Lemma cfg_ok_examples : cfg_ok (wcfg 1 4) /\ cfg_ok (wcfg 10 3) /\ cfg_ok w4_cfg /\ cfg_ok (Task 1 1 2 3 5 9 3 2 [] true true).
+Proof. repeat split; apply cfg_okb_sound; vm_compute; reflexivity. Qed.
+Lemma w4_inv_example : TaskInv w4_cfg w4_db.
+Proof. apply (TaskInv_by_ghost _ _ []); reflexivity. Qed.
